@@ -7,6 +7,7 @@ mod framing;
 #[global_allocator]
 static GLOBAL: alloc::Counting = alloc::Counting;
 mod session;
+mod ntlm;
 
 use std::io::{self, BufRead, Write};
 
@@ -15,6 +16,10 @@ fn dispatch(op: &str, args: &[&str]) -> String {
         "read" => framing::op_read(args),
         "write" => framing::op_write(args),
         "session" => session::op_session(args),
+        "md4" | "md5" | "hmac" | "rc4k" | "signkey" | "sealkey" | "mac" => ntlm::op_prim(op, args),
+        "sess" => ntlm::op_sess(args),
+        "raw" => ntlm::op_raw(args),
+        "tamper" => ntlm::op_tamper(args),
         _ => format!("unknown-op:{}", op),
     }
 }
